@@ -574,7 +574,7 @@ func cpuStream(name string, plan cpuPlan) streamFn {
 	}
 }
 
-var allFamilies = []string{"alu", "dep", "dep-mem", "mem", "br", "br-mem", "shadow", "shadow-reg", "tail", "pair", "err", "evict", "jumps", "calls", "loops", "dispatch", "stream"}
+var allFamilies = []string{"alu", "dep", "dep-mem", "mem", "br", "br-mem", "shadow", "shadow-reg", "tail", "pair", "err", "evict", "jumps", "calls", "loops", "dispatch", "stream", "pingpong"}
 
 func init() {
 	streams["cpuworker"] = func(dir string, seed int64, tier string) {}
@@ -589,7 +589,7 @@ func init() {
 	streams["cpu-c07"] = cpuStream("cpu-c07", cpuPlan{families: append([]string{"err", "br", "err", "jumps"}, allFamilies...), n: 700, pars: all4, repeats: 1})
 	streams["cpu-c09"] = cpuStream("cpu-c09", cpuPlan{families: []string{"tail", "br-mem", "tail", "dep-mem", "stream"}, n: 720, variants: pipelined, pars: all4, repeats: 1})
 	streams["cpu-c10"] = cpuStream("cpu-c10", cpuPlan{families: []string{"pair", "mem", "pair", "stream"}, n: 600, variants: pipelined, pars: all4, repeats: 1})
-	streams["cpu-c12"] = cpuStream("cpu-c12", cpuPlan{families: []string{"alu", "dep", "dep-mem", "mem", "br", "tail", "pair", "br-mem", "jumps"}, n: 800, pars: all4, repeats: 1, pairs: true})
+	streams["cpu-c12"] = cpuStream("cpu-c12", cpuPlan{families: []string{"alu", "dep", "dep-mem", "mem", "br", "tail", "pair", "br-mem", "jumps", "pingpong"}, n: 800, pars: all4, repeats: 1, pairs: true})
 	streams["cpu-c08"] = cpuStream("cpu-c08", cpuPlan{families: []string{"dep", "loops", "calls", "dep-mem", "mem", "br", "loops", "pair", "alu", "shadow-reg", "calls", "jumps", "dispatch"}, n: 364, pars: []int{1, 2, 3}, repeats: 3})
 	streams["cpu-inorder"] = cpuStream("cpu-inorder", cpuPlan{families: allFamilies, n: 1500,
 		variants: []string{"mvp1", "mvp2", "mvp3", "mvp4", "mvp5"}, pars: []int{1}, repeats: 1})
